@@ -67,6 +67,19 @@ def isConcat {α} : Flavour α → Bool
   | .concat .. => true
   | _ => false
 
+/-- The largest score at a kept position (0 when there is none or it is not finite). -/
+def keptMax (ss : List Float) (mask : List Bool) : Float :=
+  match (ss.zip mask).filterMap (fun p => if p.2 then some p.1 else none) with
+  | [] => 0
+  | x :: xs =>
+    let m := xs.foldl (fun a b => if b > a then b else a) x
+    if m.isFinite then m else 0
+
+/-- `exp (x - c)`: what a max-subtracting softmax exponentiates.  The model is run with this
+function in place of `exp` (`e` is a parameter of the model; `C20_shift_invariant` proves that
+every `e' x = e x * g`, `g ≠ 0` — here `g = exp (-c)` — gives the same weights and output). -/
+def expShift (c : Float) (x : Float) : Float := Float.exp (x - c)
+
 /-- case: {flavour, D, elems: [{q, ks, vs, mask}]}. -/
 def c20Single : Handler := fun c => do
   let flJ ← field c "flavour"
@@ -80,11 +93,13 @@ def c20Single : Handler := fun c => do
     let scoresExact : Json :=
       if isConcat flR then Json.null
       else listJ ratToJson (elR.ks.map (score (fun x => x) flR elR.q))
-    let ws := weights Float.tanh Float.exp fl el.q el.ks el.mask
-    let out := attend Float.tanh Float.exp fl D el.q el.ks el.vs el.mask
-    let spec := attendSpec Float.tanh Float.exp fl D el.q el.ks el.vs el.mask
-    pure (objJ [("scores_exact", scoresExact),
-      ("scores", listJ floatJ (el.ks.map (score Float.tanh fl el.q))),
+    let scoresF := el.ks.map (score Float.tanh fl el.q)
+    let c := keptMax scoresF (effMask el.mask el.ks.length)
+    let ws := weights Float.tanh (expShift c) fl el.q el.ks el.mask
+    let out := attend Float.tanh (expShift c) fl D el.q el.ks el.vs el.mask
+    let spec := attendSpec Float.tanh (expShift c) fl D el.q el.ks el.vs el.mask
+    pure (objJ [("scores_exact", scoresExact), ("shift", floatJ c),
+      ("scores", listJ floatJ scoresF),
       ("weights", listJ floatJ ws), ("out", listJ floatJ out), ("spec", listJ floatJ spec)]))
   pure (objJ [("elems", Json.arr outs.toArray)])
 
@@ -107,9 +122,14 @@ def c20Multi : Handler := fun c => do
   let elemsJ ← field c "elems" >>= (·.getArr?)
   let outs ← elemsJ.toList.mapM (fun ej => do
     let el ← parseElem f ej
-    let out := mhaForward Float.tanh Float.exp m el.q el.ks el.vs el.mask
-    let spec := mhaSpec Float.tanh Float.exp m el.q el.ks el.vs el.mask
-    pure (objJ [("out", listJ floatJ out), ("spec", listJ floatJ spec)]))
+    -- one shift per head: the largest kept score of that head
+    let cs := (List.range m.numHeads).map (fun h =>
+      keptMax (mhaHeadScores Float.tanh m el.q el.ks h) (effMask el.mask el.ks.length))
+    let eh : Nat → Float → Float := fun h => expShift (cs.getD h 0)
+    let out := mhaForwardH Float.tanh eh m el.q el.ks el.vs el.mask
+    let spec := mhaSpecH Float.tanh eh m el.q el.ks el.vs el.mask
+    pure (objJ [("out", listJ floatJ out), ("spec", listJ floatJ spec),
+      ("shifts", listJ floatJ cs)]))
   pure (objJ [("has_bias", objJ [("wq", boolJ m.bQ.isSome), ("wk", boolJ m.bK.isSome),
       ("wv", boolJ m.bV.isSome), ("wc", boolJ m.bC.isSome)]),
     ("elems", Json.arr outs.toArray)])
